@@ -148,6 +148,7 @@ package agent
 
 //@ fn (*Agent).setupSocketServer(a) (err)
 //@   props C03 C16
+//@   assert before sock.NewServer [C16 a_run_listens_on_the_socket_of_its_dag_file] arg0 == sock_addr(a.dag.Location)
 //@   requires a.dag != nil
 //@   modifies a.socketServer, heap(alloc)
 //@   ensures err == nil ==> a.socketServer != nil
